@@ -32,9 +32,11 @@ def F(name, kind="elem", type="str", lst=False, ns=None, pytype=None, md=None):
     return {"name": name, "kind": kind, "type": type, "list": lst, "ns": ns, "pytype": pytype, "md": md}
 
 
-def C(cid, name, ns=None, tns=None, parent=None, own=(), glob=True, broken=False):
+def C(cid, name, ns=None, tns=None, parent=None, own=(), glob=True, broken=False, ok=True):
+    """broken: generated with two Text fields; ok=False: the fields are generated as described but
+    XmlMetaBuilder.build refuses the class (e.g. a field type without a converter)"""
     return {"cid": cid, "name": name, "ns": ns, "tns": tns, "parent": parent, "own_fields": list(own),
-            "global": glob, "broken": broken}
+            "global": glob, "broken": broken, "ok": ok}
 
 
 STATIC = [
@@ -66,6 +68,12 @@ STATIC = [
     C(35, "Cmp", ns="urn:u", own=[F("choice", lst=True, pytype="List[object]",
                                     md={"choices": [["ca", "int"], ["cb", "str"], ["cl", "_C1"]]})]),
     C(36, "Nil", ns="urn:u", own=[F("nv", pytype="Optional[str]", md={"nillable": True}), F("nleaf", type=1)]),
+    # user subclasses of primitive types as values and as field types (Money(Decimal) has no converter of its own)
+    C(37, "MoneyHolder", own=[F("amount", pytype="Optional[Decimal]"), F("count", pytype="Optional[int]"),
+                              F("label", "attr")]),
+    C(38, "MoneyTyped", own=[F("price", pytype='Optional["Money"]')], ok=False),
+    # an element before and after a wildcard: get_element_vars has to sort (wildcards come first in its chain)
+    C(25, "WildMid", ns="urn:w", own=[F("head"), F("body", "wild", "any", True, "##any"), F("foot")]),
 ]
 # compound (Elements / choices) fields with several primitive choices in every order: a str value is
 # matched to the FIRST choice whose converter accepts it, so which element a value is written as /
@@ -137,7 +145,7 @@ def c_class(d):
     fields = clist([c_field(f) for f in full_fields(d)] if not d["broken"] else [], str, "fdesc")
     par = "None" if d["parent"] is None else f"(Some {d['parent']}%N)"
     return (f"(mkC {d['cid']}%N {cstr(d['name'])} {ostr(d['ns'])} {ostr(d['tns'])} {cbool(d['global'])} {par} "
-            f"{fields} {cbool(not d['broken'])})")
+            f"{fields} {cbool(not d['broken'] and d.get('ok', True))})")
 
 
 def c_ambient(a):
@@ -407,6 +415,7 @@ VALUES = {
     "Wild": O(10, any=[leaf("w1"), ["any", "{urn:z}g", "txt"], ["der", "{urn:w}dd", None, O(7, b=S("wb"), d=S("wd"))]]),
     "WildO": O(11, one=leaf("o1"), t=S("to")),
     "WildT": O(17, tany=[O(13, y=S("ty")), leaf("t1")]),
+    "WildMid": O(25, head=S("h"), body=[["any", "{urn:z}x", "1"], ["any", "y", "2"]], foot=S("f")),
     "Own": O(12, oleaf=O(13, y=S("y1")), n=S("n1")),
     "Broken": ["obj", 14, []],
     "Tgt": O(15, z=S("z1")),
@@ -529,6 +538,16 @@ def build_ops(ck, fresh_ser, fresh_enc):
                 add(f"odecs:{cname}:{ln}", (), kind="odecs", clazz=cid, data=data)
         add(f"odec:{cname}:non-conv", (), kind="odec", clazz=cid, data={"items": ["abc", conv]})
         add(f"ojser:{cname}:conv-non", (), kind="ojser", clazz=cid, fields=[["items", lists["conv-non"]]])
+    # user subclasses of primitive types: values (Money(Decimal), MyInt(int), MyStr(str)) and a field typed Money
+    add("oser:MoneyHolder:money", (), kind="oser", clazz=37, fields=[["amount", ["m", "1.50"]], ["count", ["mi", 5]],
+                                                                      ["label", ["ms", "lbl"]]])
+    add("ojser:MoneyHolder:money", (), kind="ojser", clazz=37, fields=[["amount", ["m", "2.25"]]])
+    add("oser:MoneyHolder:plain", (), kind="oser", clazz=37, fields=[["count", ["i", 7]]])
+    add("odecs:MoneyHolder", (), kind="odecs", clazz=37, data={"amount": "1.5", "count": "3"})
+    add("oparse:MoneyHolder", (), kind="oparse", clazz=37, doc='<MoneyHolder label="l"><amount>1.5</amount><count>4</count></MoneyHolder>')
+    add("oparse:MoneyTyped", (), kind="oparse", clazz=38, doc="<MoneyTyped><price>1.5</price></MoneyTyped>")
+    add("odecs:MoneyTyped", (), kind="odecs", clazz=38, data={"price": "1.5"})
+    add("build:38,None", (), kind="call", name="build", args=[38, None])
     for c in (30, 32, 33, 34, 36, 19, 18):     # (35: a compound field is described only as far as its namespace goes)
         add(f"build:{c},urn:q", (), kind="call", name="build", args=[c, "urn:q"])
         add(f"build:{c},None", (), kind="call", name="build", args=[c, None])
@@ -786,7 +805,8 @@ def run_impl_parallel(ops, seqs, workers=8):
     for k, o in enumerate(outs):
         for j, r in enumerate(o["runs"]):
             runs[k + j * n] = r
-    return {"order": first["order"], "ambient": first["ambient"], "modules0": first["modules0"], "runs": runs}
+    return {"order": first["order"], "ambient": first["ambient"], "modules0": first["modules0"], "runs": runs,
+            "glob_warmup": first.get("glob_warmup")}
 
 
 CLASSES = {32: "ns-cache-key", 64: "stale-subclass-index", 128: "pruned-index", 256: "build-recursive-skips-cached"}
@@ -822,6 +842,9 @@ def run(ck: Check):
     # ---- pass 2: the sequences on the real instances
     res = run_impl_parallel(ops, seqs)
     t_p2 = time.time()
+    if res.get("glob_warmup"):
+        ck.failure("process-global-state-changed", "running every operation once on throw-away instances changed process-wide "
+                   "library state (shared by used and fresh instances alike): " + res["glob_warmup"], {"change": res["glob_warmup"]})
     order, ambient = res["order"], {a["cid"]: a for a in res["ambient"]}
 
     # ---- the world and the cases as Gallina terms
@@ -849,6 +872,12 @@ def run(ck: Check):
                     continue
                 calls_ += 1
                 kind = ops[st["op"]]["kind"]
+                if out.get("glob") and not any(v[0] == "process-global-state-changed" for v in ck.violations):
+                    # process-wide library state is shared by used and fresh instances alike: an operation that
+                    # changes it makes later results depend on the history although shared == fresh
+                    ck.failure("process-global-state-changed",
+                               f"operation {ops[st['op']]['tag']} changed process-wide library state: {out['glob']}",
+                               {"sequence": [ops[x["op"]]["tag"] if "op" in x else x for x in seq], "change": out["glob"]})
                 for side in ("ts", "tf"):
                     if kind in OPAQUE and any(e[0] == "m" for e in out[side]):
                         raise RuntimeError(f"opaque operation {ops[st['op']]['tag']} calls {out[side]}: not replayable")
